@@ -34,7 +34,7 @@ LEAN_MODULES = {
     "C05": ["TFV.Properties.EA", "TFV.Properties.Src.Engine"],
     "C06": ["TFV.Properties.BinOps", "TFV.Properties.Runs", "TFV.Properties.Src.BinKernels", "TFV.Properties.Src.BinKernels2"],
     "C07": ["TFV.Properties.DE", "TFV.Properties.Runs", "TFV.Properties.Src.BoundsControl", "TFV.Properties.Src.Binomial"],
-    "C08": ["TFV.Properties.Tree", "TFV.Properties.TreeCR", "TFV.Properties.Runs", "TFV.Properties.Src.Levels"],
+    "C08": ["TFV.Properties.Tree", "TFV.Properties.TreeCR", "TFV.Properties.Runs", "TFV.Properties.Src.Levels", "TFV.Properties.Src.Shrink"],
     "C09": ["TFV.Properties.Tree", "TFV.Properties.TreeCR", "TFV.Properties.Src.TreeIdx", "TFV.Properties.Src.CommonRegion", "TFV.Properties.Src.TreeMethods"],
     "C10": ["TFV.Properties.Gray"],
     "C11": ["TFV.Properties.Select", "TFV.Properties.Src.Bsearch", "TFV.Properties.Src.Tournament", "TFV.Properties.Src.Sampling"],
@@ -59,7 +59,7 @@ SRC_KERNELS = {
     "C06": ["flip_mutation", "binomialGA", "one_point_crossover", "two_point_crossover", "uniform_crossover",
             "uniform_proportional_crossover", "uniform_rank_crossover", "empty_crossover"],
     "C07": ["bounds_control", "binomial"],
-    "C08": ["get_levels_tree_from_i"],
+    "C08": ["get_levels_tree_from_i", "find_end_subtree_from_i", "find_id_args_from_i", "Tree_subtree_id", "Tree_subtree", "Tree_concat", "shrink_mutation"],
     "C09": ["find_end_subtree_from_i", "find_id_args_from_i", "find_first_difference_between_two", "common_region_two_trees",
             "Tree_subtree_id", "Tree_subtree", "Tree_concat"],
     "C11": ["binary_search_interval", "check_for_value", "argsort_k", "tournament_selection", "sattolo_shuffle", "random_sample", "random_weighted_sample"],
